@@ -193,8 +193,12 @@ fn run_script(rng: &mut Rng) -> Result<Run, String> {
     for _ in 0..rng.below(3) {
         spec.messages.push((10 + rng.below(1000), if rng.bool() { vec![] } else { rng.bytes_upto(20) }));
     }
+    // the fee is paid from a base-asset coin; change only for assets that have an input
+    spec.coins.push((assets[0], 10_000_000));
+    spec.max_fee = 5_000_000;
+    let have: Vec<AssetId> = spec.coins.iter().map(|(a, _)| *a).collect();
     for a in &assets {
-        if rng.bool() { spec.outputs.push(OutSpec::Change(*a)); }
+        if have.contains(a) && rng.bool() { spec.outputs.push(OutSpec::Change(*a)); }
     }
     for _ in 0..rng.below(3) {
         spec.outputs.push(if rng.bool() { OutSpec::Variable } else { OutSpec::Coin(assets[0], 1 + rng.below(100)) });
@@ -519,15 +523,16 @@ fn push_case(out: &mut Out, run: &Run, label: &str) {
 
 fn run_all(args: &Args, out: &mut Out) {
     let mut rng = Rng::new(args.seed);
-    let n_model = args.scale(2, 24);        // per kind (predicate context) ; script context: 2x
+    let n_model = args.scale(3, 24);        // per kind (predicate context) ; script context: 2x
     let n_oracle = args.scale(30, 600);
     let mut init_failed = 0u64;
     for kind in [0usize, 1, 3, 4, 5] {
-        for i in 0..n_oracle.max(n_model) {
+        let mut pushed = 0;
+        for _ in 0..n_oracle.max(n_model) {
             match run_pred_case(&mut rng, kind) {
                 Ok(run) => {
                     oracle(out, &run);
-                    if i < n_model && !args.oracle_only { push_case(out, &run, "predicate"); } else { out.count(&format!("oracle/{}/predicate", KIND_NAMES[kind])); }
+                    if pushed < n_model && !args.oracle_only { pushed += 1; push_case(out, &run, "predicate"); } else { out.count(&format!("oracle/{}/predicate", KIND_NAMES[kind])); }
                 }
                 Err(e) => {
                     init_failed += 1;
@@ -536,11 +541,12 @@ fn run_all(args: &Args, out: &mut Out) {
             }
         }
     }
-    for i in 0..(2 * n_oracle).max(2 * n_model) {
+    let mut pushed = 0;
+    for _ in 0..(2 * n_oracle).max(2 * n_model) {
         match run_script(&mut rng) {
             Ok(run) => {
                 oracle(out, &run);
-                if i < 2 * n_model && !args.oracle_only { push_case(out, &run, "script"); } else { out.count("oracle/Script/script"); }
+                if pushed < n_model + 1 && !args.oracle_only { pushed += 1; push_case(out, &run, "script"); } else { out.count("oracle/Script/script"); }
             }
             Err(e) => { init_failed += 1; out.count("init-failed/script"); if out.notes.len() < 3 { out.notes.push(format!("script build/init failed: {}", e)); } }
         }
